@@ -579,4 +579,288 @@ theorem adds_clean_nodup (rs : List Resource) :
         | none => rfl
         | some d => simp [hb''] at h2
 
+/-! ## E. requests -/
+
+theorem getBundle_eq (w : World) (parse : Bytes → Resource) (m : Mgr) (loc : Bytes) (ls ids : List Bytes) :
+    getBundle w parse m (loc :: ls) ids =
+      ((loads w parse loc ids m).1,
+       .done (finish (loc :: ls) (assemble (loads w parse loc ids m).2 Bundle.empty).1
+          (assemble (loads w parse loc ids m).2 Bundle.empty).2)) := by
+  simp only [getBundle, loadLoop_eq]
+
+theorem getBundle_step (w : World) (parse : Bytes → Resource) (m : Mgr) (locales ids : List Bytes)
+    (h : MInv w parse m) :
+    MInv w parse (getBundle w parse m locales ids).1 ∧
+    Step m (getBundle w parse m locales ids).1
+      (fun p => ∃ loc, locales.head? = some loc ∧ ∃ rid ∈ ids, p = pathOf m.scheme loc rid) := by
+  cases locales with
+  | nil => exact ⟨h, Step.refl _ _⟩
+  | cons loc ls =>
+    rw [getBundle_eq]
+    have := loads_step w parse loc ids m h
+    exact ⟨this.1, this.2.mono (fun p hp => ⟨loc, rfl, hp⟩)⟩
+
+theorem next_some (w : World) (parse : Bytes → Resource) (m : Mgr) (it : BundlesIter) (loc : Bytes)
+    (h : it.locales[it.idx]? = some loc) :
+    it.next w parse m =
+      ((loads w parse loc it.ids m).1, { it with idx := it.idx + 1 },
+       some (finish [loc] (assemble (loads w parse loc it.ids m).2 Bundle.empty).1
+          (assemble (loads w parse loc it.ids m).2 Bundle.empty).2)) := by
+  simp only [BundlesIter.next, h, loadLoop_eq]
+
+theorem next_none (w : World) (parse : Bytes → Resource) (m : Mgr) (it : BundlesIter)
+    (h : it.locales[it.idx]? = none) : it.next w parse m = (m, it, none) := by
+  simp only [BundlesIter.next, h]
+
+theorem next_step (w : World) (parse : Bytes → Resource) (m : Mgr) (it : BundlesIter)
+    (h : MInv w parse m) :
+    MInv w parse (it.next w parse m).1 ∧
+    Step m (it.next w parse m).1
+      (fun p => ∃ loc, it.locales[it.idx]? = some loc ∧ ∃ rid ∈ it.ids, p = pathOf m.scheme loc rid) := by
+  cases hl : it.locales[it.idx]? with
+  | none => rw [next_none _ _ _ _ hl]; exact ⟨h, Step.refl _ _⟩
+  | some loc =>
+    rw [next_some _ _ _ _ _ hl]
+    have := loads_step w parse loc it.ids m h
+    exact ⟨this.1, this.2.mono (fun p hp => ⟨loc, rfl, hp⟩)⟩
+
+theorem stepReq_step (w : World) (parse : Bytes → Resource) (s : Sys) (r : Req) (h : MInv w parse s.mgr) :
+    MInv w parse (stepReq w parse s r).1.mgr ∧ Step s.mgr (stepReq w parse s r).1.mgr (fun _ => True) := by
+  cases r with
+  | bundle locales ids =>
+    have := getBundle_step w parse s.mgr locales ids h
+    exact ⟨this.1, this.2.mono (fun _ _ => trivial)⟩
+  | openIter locales ids => exact ⟨h, Step.refl _ _⟩
+  | next k =>
+    simp only [stepReq]
+    cases hk : s.iters[k]? with
+    | none => exact ⟨h, Step.refl _ _⟩
+    | some it =>
+      have := next_step w parse s.mgr it h
+      exact ⟨this.1, this.2.mono (fun _ _ => trivial)⟩
+
+theorem foldl_stepReq_step (w : World) (parse : Bytes → Resource) (reqs : List Req) :
+    ∀ s : Sys, MInv w parse s.mgr →
+      MInv w parse (reqs.foldl (fun s r => (stepReq w parse s r).1) s).mgr ∧
+      Step s.mgr (reqs.foldl (fun s r => (stepReq w parse s r).1) s).mgr (fun _ => True) := by
+  induction reqs with
+  | nil => intro s h; exact ⟨h, Step.refl _ _⟩
+  | cons r reqs ih =>
+    intro s h
+    have h1 := stepReq_step w parse s r h
+    have h2 := ih _ h1.1
+    exact ⟨h2.1, h1.2.trans h2.2⟩
+
+/-- `n` calls of `next()` on one iterator, nothing else in between -/
+def pulls (w : World) (parse : Bytes → Resource) :
+    Nat → Mgr → BundlesIter → Mgr × BundlesIter × List (Option BundleResult)
+  | 0, m, it => (m, it, [])
+  | n + 1, m, it =>
+    ((pulls w parse n (it.next w parse m).1 (it.next w parse m).2.1).1,
+     (pulls w parse n (it.next w parse m).1 (it.next w parse m).2.1).2.1,
+     (it.next w parse m).2.2 :: (pulls w parse n (it.next w parse m).1 (it.next w parse m).2.1).2.2)
+
+/-- the single-locale bundle requests for the given locales, one after the other -/
+def seqBundles (w : World) (parse : Bytes → Resource) (ids : List Bytes) :
+    List Bytes → Mgr → Mgr × List BundleResult
+  | [], m => (m, [])
+  | loc :: rest, m =>
+    ((seqBundles w parse ids rest (loadLoop w parse loc ids m Bundle.empty).1).1,
+     finish [loc] (loadLoop w parse loc ids m Bundle.empty).2.1 (loadLoop w parse loc ids m Bundle.empty).2.2
+       :: (seqBundles w parse ids rest (loadLoop w parse loc ids m Bundle.empty).1).2)
+
+theorem pulls_end (w : World) (parse : Bytes → Resource) (m : Mgr) (it : BundlesIter)
+    (h : it.locales[it.idx]? = none) :
+    ∀ k, pulls w parse k m it = (m, it, List.replicate k none) := by
+  intro k
+  induction k with
+  | zero => rfl
+  | succ k ih =>
+    simp only [pulls, next_none _ _ _ _ h, ih, List.replicate_succ]
+
+theorem pulls_drop (w : World) (parse : Bytes → Resource) (locales ids : List Bytes) (k : Nat) :
+    ∀ (rest : List Bytes) (i : Nat) (m : Mgr), locales.drop i = rest →
+      pulls w parse (rest.length + k) m ⟨locales, ids, i⟩ =
+        ((seqBundles w parse ids rest m).1, ⟨locales, ids, i + rest.length⟩,
+         (seqBundles w parse ids rest m).2.map some ++ List.replicate k none) := by
+  intro rest
+  induction rest with
+  | nil =>
+    intro i m h
+    have hi : locales[i]? = none := by
+      have := List.drop_eq_nil_iff.1 h
+      exact List.getElem?_eq_none this
+    simpa [seqBundles] using pulls_end w parse m ⟨locales, ids, i⟩ hi k
+  | cons loc rest ih =>
+    intro i m h
+    have hi : locales[i]? = some loc := by
+      have := congrArg (fun l => l[0]?) h
+      simpa using this
+    have hd : locales.drop (i + 1) = rest := by
+      have := congrArg List.tail h
+      simpa using this
+    have hn : (loc :: rest).length + k = (rest.length + k) + 1 := by simp; omega
+    rw [hn]
+    have hnext : BundlesIter.next w parse m ⟨locales, ids, i⟩ =
+        ((loadLoop w parse loc ids m Bundle.empty).1, ⟨locales, ids, i + 1⟩,
+          some (finish [loc] (loadLoop w parse loc ids m Bundle.empty).2.1
+            (loadLoop w parse loc ids m Bundle.empty).2.2)) := by
+      simp only [BundlesIter.next, hi]
+    simp only [pulls, hnext, ih (i + 1) _ hd, seqBundles, List.map_cons, List.cons_append]
+    have : i + 1 + rest.length = i + (rest.length + 1) := by omega
+    simp [this]
+
+/-! ## F. locality: a request consults the world only at the ticks of its own reads
+
+Consequence (`piecewise_glue`): a run in which every request is evaluated against its own world (for
+instance the file-system snapshot of that moment, as the correspondence driver does) is a run against
+one global world, so every theorem about `runReqs` applies to it. -/
+
+def AgreeOn (a b : Nat) (w w' : World) : Prop := ∀ t, a ≤ t → t < b → w t = w' t
+
+theorem getResource_clock (w : World) (parse : Bytes → Resource) (m : Mgr) (rid loc : Bytes) :
+    (getResource w parse m rid loc).1.clock =
+      if cacheGet m.cache (pathOf m.scheme loc rid) = none then m.clock + 1 else m.clock := by
+  unfold getResource
+  simp only
+  cases hc : cacheGet m.cache (pathOf m.scheme loc rid) with
+  | some r => simp
+  | none => cases w m.clock (pathOf m.scheme loc rid) <;> simp
+
+theorem getResource_local (w w' : World) (parse : Bytes → Resource) (m : Mgr) (rid loc : Bytes)
+    (h : cacheGet m.cache (pathOf m.scheme loc rid) = none → w m.clock = w' m.clock) :
+    getResource w parse m rid loc = getResource w' parse m rid loc := by
+  unfold getResource
+  simp only
+  cases hc : cacheGet m.cache (pathOf m.scheme loc rid) with
+  | some r => rfl
+  | none => rw [h hc]
+
+theorem loads_clock_le (w : World) (parse : Bytes → Resource) (locale : Bytes) (ids : List Bytes) :
+    ∀ m, m.clock ≤ (loads w parse locale ids m).1.clock := by
+  induction ids with
+  | nil => intro m; exact Nat.le_refl _
+  | cons rid rest ih =>
+    intro m
+    have h1 : m.clock ≤ (getResource w parse m rid locale).1.clock := by
+      rw [getResource_clock]; split <;> omega
+    exact Nat.le_trans h1 (ih _)
+
+theorem loads_agree (w w' : World) (parse : Bytes → Resource) (locale : Bytes) (ids : List Bytes) :
+    ∀ m, AgreeOn m.clock (loads w parse locale ids m).1.clock w w' →
+      loads w parse locale ids m = loads w' parse locale ids m := by
+  induction ids with
+  | nil => intro m _; rfl
+  | cons rid rest ih =>
+    intro m h
+    have hfin := loads_clock_le w parse locale rest (getResource w parse m rid locale).1
+    have hg : getResource w parse m rid locale = getResource w' parse m rid locale := by
+      apply getResource_local
+      intro hc
+      apply h m.clock (Nat.le_refl _)
+      have := getResource_clock w parse m rid locale
+      rw [if_pos hc] at this
+      simp only [loads]
+      omega
+    have hle : m.clock ≤ (getResource w parse m rid locale).1.clock := by
+      rw [getResource_clock]; split <;> omega
+    have ih' := ih (getResource w parse m rid locale).1
+      (fun t ht1 ht2 => h t (Nat.le_trans hle ht1) (by simpa [loads] using ht2))
+    simp only [loads]
+    rw [← hg, ih']
+
+theorem stepReq_clock_le (w : World) (parse : Bytes → Resource) (s : Sys) (r : Req) :
+    s.mgr.clock ≤ (stepReq w parse s r).1.mgr.clock := by
+  cases r with
+  | bundle locales ids =>
+    cases locales with
+    | nil => exact Nat.le_refl _
+    | cons loc ls =>
+      simp only [stepReq, getBundle_eq]
+      exact loads_clock_le _ _ _ _ _
+  | openIter locales ids => exact Nat.le_refl _
+  | next k =>
+    simp only [stepReq]
+    cases hk : s.iters[k]? with
+    | none => exact Nat.le_refl _
+    | some it =>
+      cases hl : it.locales[it.idx]? with
+      | none => simp only [next_none _ _ _ _ hl]; exact Nat.le_refl _
+      | some loc => simp only [next_some _ _ _ _ _ hl]; exact loads_clock_le _ _ _ _ _
+
+theorem stepReq_agree (w w' : World) (parse : Bytes → Resource) (s : Sys) (r : Req)
+    (h : AgreeOn s.mgr.clock (stepReq w parse s r).1.mgr.clock w w') :
+    stepReq w parse s r = stepReq w' parse s r := by
+  cases r with
+  | bundle locales ids =>
+    cases locales with
+    | nil => rfl
+    | cons loc ls =>
+      simp only [stepReq, getBundle_eq] at h ⊢
+      rw [loads_agree w w' parse loc ids s.mgr h]
+  | openIter locales ids => rfl
+  | next k =>
+    simp only [stepReq] at h ⊢
+    cases hk : s.iters[k]? with
+    | none => rfl
+    | some it =>
+      simp only [hk] at h
+      cases hl : it.locales[it.idx]? with
+      | none => simp only [next_none _ _ _ _ hl]
+      | some loc =>
+        simp only [next_some _ _ _ _ _ hl] at h ⊢
+        rw [loads_agree w w' parse loc it.ids s.mgr h]
+
+/-- responses of a history against one world -/
+def resps (w : World) (parse : Bytes → Resource) : Sys → List Req → List Resp
+  | _, [] => []
+  | s, r :: rest => (stepReq w parse s r).2 :: resps w parse (stepReq w parse s r).1 rest
+
+/-- final state and responses of a history in which every request comes with its own world -/
+def runPW (parse : Bytes → Resource) : Sys → List (World × Req) → Sys × List Resp
+  | s, [] => (s, [])
+  | s, (w, r) :: rest =>
+    ((runPW parse (stepReq w parse s r).1 rest).1,
+     (stepReq w parse s r).2 :: (runPW parse (stepReq w parse s r).1 rest).2)
+
+theorem run_agree (w w' : World) (parse : Bytes → Resource) (reqs : List Req) :
+    ∀ s : Sys, (∀ t, s.mgr.clock ≤ t → w t = w' t) →
+      reqs.foldl (fun s r => (stepReq w parse s r).1) s = reqs.foldl (fun s r => (stepReq w' parse s r).1) s ∧
+      resps w parse s reqs = resps w' parse s reqs := by
+  induction reqs with
+  | nil => intro s _; exact ⟨rfl, rfl⟩
+  | cons r reqs ih =>
+    intro s h
+    have h1 : stepReq w parse s r = stepReq w' parse s r :=
+      stepReq_agree w w' parse s r (fun t ht _ => h t ht)
+    have h2 := ih (stepReq w parse s r).1
+      (fun t ht => h t (Nat.le_trans (stepReq_clock_le w parse s r) ht))
+    simp only [List.foldl_cons, resps]
+    rw [← h1]
+    exact ⟨h2.1, by rw [h2.2]⟩
+
+theorem piecewise_glue (parse : Bytes → Resource) (steps : List (World × Req)) :
+    ∀ s : Sys, ∃ W : World,
+      (runPW parse s steps).1 = (steps.map (·.2)).foldl (fun s r => (stepReq W parse s r).1) s ∧
+      (runPW parse s steps).2 = resps W parse s (steps.map (·.2)) := by
+  induction steps with
+  | nil => intro s; exact ⟨fun _ _ => .err .notFound, rfl, rfl⟩
+  | cons wr rest ih =>
+    obtain ⟨w, r⟩ := wr
+    intro s
+    obtain ⟨W', hW1, hW2⟩ := ih (stepReq w parse s r).1
+    let W : World := fun t => if t < (stepReq w parse s r).1.mgr.clock then w t else W' t
+    have hstep : stepReq W parse s r = stepReq w parse s r := by
+      symm
+      apply stepReq_agree
+      intro t _ ht2
+      simp [W, ht2]
+    have hrest := run_agree W' W parse (rest.map (·.2)) (stepReq w parse s r).1
+      (fun t ht => by simp [W, Nat.not_lt.2 ht])
+    refine ⟨W, ?_, ?_⟩
+    · simp only [runPW, List.map_cons, List.foldl_cons, hstep]
+      rw [hW1, hrest.1]
+    · simp only [runPW, List.map_cons, resps, hstep]
+      rw [hW2, hrest.2]
+
 end FluentModel.ResMgr
